@@ -38,6 +38,9 @@ func main() {
 	case "C15":
 		rep = suiteStruct(*tier, *seed, *model)
 		rep.Merge(suiteIfaceMembers(*tier, *seed))
+		rep.Merge(suiteEmbed(*tier, *seed))
+	case "C15e":
+		rep = suiteEmbed(*tier, *seed)
 	case "C16":
 		rep = suiteRecompose(*tier, *seed, *model)
 		rep.Merge(suiteRecomposeDirected(*tier, *seed))
